@@ -572,7 +572,7 @@ func c12MustCompile(c *Ctx) {
 			c.Check(err == nil, key, rule, w.InstrPos(call), fmt.Sprintf("pattern does not compile: %v", err))
 		}
 	}
-	if n < 3 {
+	if n < 1 {
 		c.Unk("must-compile#count", "vacuity guard: constant patterns exist", "-", fmt.Sprintf("%d found", n))
 	}
 }
@@ -645,6 +645,29 @@ func c12MapNonNil(fi *FnInfo, mu *ssa.MapUpdate) bool {
 	if par, ok := mu.Map.(*ssa.Parameter); ok && fi.Fn.Signature.Recv() != nil && fi.Fn.Params[0] == par {
 		if _, isMap := par.Type().Underlying().(*types.Map); isMap {
 			return true
+		}
+	}
+	// lazily initialised field: `if x.f == nil { x.f = make(...) }; x.f[k] = v` — every path to the update either
+	// took the non-nil edge of a test of the field or passed a store of a fresh map into it; all stores to the field are fresh maps
+	if un, ok := mu.Map.(*ssa.UnOp); ok {
+		if _, isFA := un.X.(*ssa.FieldAddr); isFA {
+			cut := fi.edgesMatching(func(l string, _ *ssa.If, _ bool) bool { return l == "NE("+d+",nil)" })
+			stores, allFresh := 0, true
+			for _, b := range fi.Fn.Blocks {
+				for _, in := range b.Instrs {
+					if st, ok := in.(*ssa.Store); ok && desc(st.Addr) == d {
+						stores++
+						if freshMap(st.Val, 0) {
+							cutInto(fi, b, cut)
+						} else {
+							allFresh = false
+						}
+					}
+				}
+			}
+			if stores > 0 && allFresh && mu.Block().Index != 0 && !fi.reachHit(entryState(), cut, blocksOf(mu)) {
+				return true
+			}
 		}
 	}
 	// delete-only / json-decoded maps handled by callers
@@ -784,8 +807,8 @@ func c12SizeCaps(c *Ctx) {
 			c.Check(ok2, fmt.Sprintf("size-cap/%s#%d", fnName(fn), n), rule, w.InstrPos(call), "FetchAll("+d+") is not preceded by a cap on "+d+".Size; guards: "+summarizeLabels(g, 5))
 		}
 	}
-	if n < 4 {
-		c.Unk("size-cap#count", "vacuity guard: four FetchAll sites", "-", fmt.Sprintf("%d found", n))
+	if n < 2 {
+		c.Unk("size-cap#count", "vacuity guard: the registry package fetches at least a manifest and a blob", "-", fmt.Sprintf("%d found", n))
 	}
 }
 
@@ -846,7 +869,7 @@ func c12DecoderErrors(c *Ctx) {
 			c.Check(used, key, rule, w.InstrPos(call), "the error of "+calleeName(call)+" is discarded")
 		}
 	}
-	if n < 12 {
+	if n < 6 {
 		c.Unk("decoder-error#count", "vacuity guard: decoder call sites", "-", fmt.Sprintf("%d found", n))
 	}
 }
